@@ -27,7 +27,7 @@ NOTE_TEXT = ['(BONG)', '<VT IN>', '(', ')', '()', '<>', '( x )', '  (padded note
              # characters outside the Basic Multilingual Plane
              '\U0001F600 good evening', '(\U0001F3AC)', '\U00020000\U0001D49C',
              # markup-like text in the middle of a line: part of the line, neither a note nor markup to remove
-             'Good evening <pause> and welcome', '<b>Headline</b> tonight', 'Turn to camera 2 <CAM2>', 'x</p>y', 'if a<b then b>a']
+             'Good evening <pause> and welcome', '<b>Headline</b> tonight', 'quoted </mos> end', '<mos><roCreate/></mos>', 'Turn to camera 2 <CAM2>', 'x</p>y', 'if a<b then b>a']
 HOSTILE_IDS = ['S1', 'S10', 'S1 ', ' S1', 's1', 'S01', 'A&B', 'x<y', 'q"q', "o'o", '5" x 7\' card',
                'NEWS,AM,S1', 'SPORT,AM,S1', 'OPENMEDIA,7f3a.22,S10', '{6B29FC40-CA47-1067}', 'a{0}b', '%s %d {x}',
                'B"][itemID=\'B\'][itemID="B', 'éè', '\U0001F600',
@@ -112,6 +112,9 @@ def _xml_noise(rng, text, p=0.2):
         return text
     def after_close(m):
         r = rng.random()
+        if r < 0.015:
+            # markup-looking text the parser never sees as markup: a closing envelope tag inside a comment
+            return m.group(0) + rng.choice(['<!-- </mos> -->', '<!-- <mos><roDelete/></mos> -->', '<?audit </mos>?>'])
         if r < 0.06:
             return m.group(0) + '<!-- note %d -->' % rng.randint(0, 99)
         if r < 0.09:
